@@ -34,6 +34,15 @@ def isAsciiAlnum (c : Char) : Bool := isAsciiAlpha c || isDigit c
 def asciiLower (c : Char) : Char :=
   if 65 ≤ c.toNat && c.toNat ≤ 90 then Char.ofNat (c.toNat + 32) else c
 
+/-- `iter().map(f).collect::<Option<Vec<_>>>()` -/
+def mapOpt {α β : Type} (f : α → Option β) : List α → Option (List β)
+  | [] => some []
+  | a :: as => match f a with
+    | none => none
+    | some b => match mapOpt f as with
+      | none => none
+      | some bs => some (b :: bs)
+
 /-! ### splitting -/
 
 /-- first piece and remaining pieces of `str::split(pred)` -/
